@@ -349,7 +349,7 @@ var leanKeywords = map[string]bool{"at": true, "from": true, "fun": true, "do": 
 var vocabulary = map[string]bool{"idx": true, "setIdx": true, "slice": true, "len": true, "upTo": true, "upToStep": true, "downFrom": true,
 	"enum": true, "cmp": true, "u8": true, "shl8": true, "shrInt": true, "andInt": true, "quo": true, "rem": true, "mapGet": true,
 	"copyInto": true, "containsAny": true, "replaceAll": true, "scan": true, "scanErr": true, "endErr": true, "wrWrite": true, "itoa": true,
-	"mapHas": true, "makeCap": true, "sprintf1": true, "fuel": true, "setInsert": true, "setErase": true, "sortInts": true, "sortByLess": true, "searchGo": true, "min": true, "max": true,
+	"mapHas": true, "mapSet": true, "makeCap": true, "sprintf1": true, "fuel": true, "setInsert": true, "setErase": true, "sortInts": true, "sortByLess": true, "searchGo": true, "min": true, "max": true,
 	"none": true, "some": true, "pure": true}
 
 // variables the translation introduces in reader / iterator / writer methods and iter.Seq closures
@@ -560,7 +560,7 @@ func (g *gl) expr(e ast.Expr) ex {
 			}
 			return atomE("(" + strings.Join(parts, ", ") + ")")
 		}
-		if m, ok := t.Underlying().(*types.Map); ok && isEmptyStruct(m.Elem()) && len(v.Elts) == 0 {
+		if _, ok := t.Underlying().(*types.Map); ok && len(v.Elts) == 0 {
 			return atomE("[]")
 		}
 	case *ast.SelectorExpr:
@@ -817,6 +817,14 @@ func (g *gl) call(c *ast.CallExpr) ex {
 				}
 			case "make":
 				t := g.typeOf(c)
+				if _, ok := t.Underlying().(*types.Map); ok && len(c.Args) <= 2 {
+					if len(c.Args) == 2 {
+						if !g.nonNegative(c.Args[1]) {
+							g.die(c, "make(map, n) with a size that may be negative")
+						}
+					}
+					return atomE("[]") // the size hint is not modelled
+				}
 				if sl, ok := t.Underlying().(*types.Slice); ok {
 					if len(c.Args) == 3 {
 						if cv, ok := g.info.Types[c.Args[1]]; ok && cv.Value != nil && constant.Sign(cv.Value) == 0 {
@@ -1163,6 +1171,13 @@ func (g *gl) assignTo(w *wr, lhs ast.Expr, tok token.Token, rhs ast.Expr) {
 			if id, ok := l.X.(*ast.Ident); ok {
 				n := g.lvName(id)
 				w.line(n + " := setInsert " + n + " " + g.expr(l.Index).arg())
+				return
+			}
+		}
+		if m, ok := g.typeOf(l.X).Underlying().(*types.Map); ok && !isEmptyStruct(m.Elem()) && tok == token.ASSIGN {
+			if id, ok := l.X.(*ast.Ident); ok {
+				n := g.lvName(id)
+				w.line(n + " := mapSet " + n + " " + g.expr(l.Index).arg() + " " + g.rhsOf(rhs).arg())
 				return
 			}
 		}
@@ -1637,7 +1652,19 @@ func (g *gl) ifStmt(w *wr, v *ast.IfStmt, kw string) {
 			g.die(v, "if with init")
 		}
 		if _, ok := g.fprintfStmt(w, a); !ok {
-			g.die(v, "if with init")
+			// if x, ok := m[k]; cond { … } (no else): the two variables are local to the statement
+			isCommaOk := false
+			if a.Tok == token.DEFINE && len(a.Lhs) == 2 && len(a.Rhs) == 1 && v.Else == nil && g.rdKind == "" {
+				if ie, isIdx := a.Rhs[0].(*ast.IndexExpr); isIdx {
+					if m, isMap := g.typeOf(ie.X).Underlying().(*types.Map); isMap && !isEmptyStruct(m.Elem()) {
+						isCommaOk = true
+					}
+				}
+			}
+			if !isCommaOk {
+				g.die(v, "if with init")
+			}
+			g.stmt(w, a)
 		}
 	}
 	// `if !yield(x) { return }` inside an iter.Seq closure
@@ -1891,6 +1918,14 @@ func (g *gl) rangeStmt(w *wr, v *ast.RangeStmt) {
 		// Go ranges over a map in an unspecified order; the translation uses ascending key order, which is
 		// only meaningful for order-insensitive bodies (the translated code sorts what it collects)
 		w.line("for " + k.Name + " in " + x.opnd() + " do")
+	case isMap && v.Value != nil && !isEmptyStruct(xt.Underlying().(*types.Map).Elem()):
+		// a map is kept as an association list and ranged over in list order: a theorem about every list that
+		// represents the map covers every iteration order Go may choose
+		val := &ast.Ident{Name: "_"}
+		if vid := v.Value.(*ast.Ident); vid.Name != "_" {
+			val.Name = g.nameOf(g.objOf(vid))
+		}
+		w.line("for (" + k.Name + ", " + val.Name + ") in " + x.opnd() + " do")
 	case isInt(xt) && v.Value == nil:
 		w.line("for " + k.Name + " in upTo " + x.arg() + " do")
 	case isList(xt) && v.Value == nil:
@@ -3145,6 +3180,9 @@ func goLean(repo, out string) {
 	g7.function("argmax", "align", "def argmax (blocks : "+BL+") : Option Int := none")
 	g7.function("traceAlignmentStepsLocal", "align", "def traceAlignmentStepsLocal (fuel : Nat) (blocks : "+BL+") (bn : Int) : Option (("+B+") × Int × Int) := none")
 	g7.function("Local", "align", "def Local (fuel : Nat) (a : "+B+") (b : "+B+") (m : "+MT+") : Option (("+B+") × Int × Int × Int) := none")
+	g7.methodNames["SubstitutionMatrix.Symmetrical"] = "Matrix_Symmetrical"
+	g7.method("SubstitutionMatrix", "Symmetrical", "Matrix_Symmetrical", "align", "def Matrix_Symmetrical (m : "+MT+") : Option ("+MT+") := none")
+	g7.initFunc(3, "align", "def init_3 : Option ("+MT+") := none")
 	floatAsInt = false
 	for _, n := range g7.order {
 		w.WriteString(g7.funcs[n].text)
